@@ -22,6 +22,9 @@ CIP_TYPES = {
 CIP_STRINGS = {0xD0: (2, 1), 0xD5: (2, 2), 0xDA: (1, 1)}
 
 
+from vlib import sym as _sym
+
+
 def le(v, n):
     """little-endian bytes (list of ints) of the n-byte two's complement encoding of v"""
     u = v % (1 << (8 * n))
@@ -85,3 +88,17 @@ def struct_image(size, members, bit_members):
         elif not val and has:
             img[off] = cur - (1 << bit)
     return img
+
+
+def eq_le(bs, signed, v):
+    """fork-free: do the little-endian bytes bs hold the (two's complement) integer v?"""
+    n = len(bs)
+    u = 0
+    for i in range(n):
+        u = u + bs[i] * (1 << (8 * i))
+    if not signed:
+        return u == v
+    M = 1 << (8 * n)
+    if type(u) is int and type(v) is int:
+        return u == (v % M) and -(M >> 1) <= v < (M >> 1)
+    return _sym.sym_or(_sym.sym_and(v >= 0, u == v), _sym.sym_and(v < 0, u == v + M))
